@@ -326,7 +326,7 @@ def pq(name, func, tier="quick", h=4, defs=None, timeout=1500, mem_est=9, **kw):
     d = dict(H4)
     d["H"] = h
     d.update(defs or {})
-    return Q(name, "c01_process.c", tier=tier, func=func, defs=d, unwind=12, timeout=timeout, mem_gb=20, mem_est=mem_est, cost=mem_est,
+    return Q(name, "c01_process.c", tier=tier, func=func, defs=d, unwind=max(12, h + 8), timeout=timeout, mem_gb=20, mem_est=mem_est, cost=mem_est,
              bounds=kw.pop("bounds", "one real call from an arbitrary LP history of <= %d entries (processed / local-sent / remote-sent, arbitrary timestamps incl. ties, types, 0..1 payload bytes, arbitrary flag states)" % h), **kw)
 
 
